@@ -18,6 +18,7 @@ func init() {
 	zzsv.Register("ZZ_C03_Programs", ZZ_C03_Programs)
 	zzsv.Register("ZZ_C03_Literals", ZZ_C03_Literals)
 	zzsv.Register("ZZ_C03_LongPrograms", ZZ_C03_LongPrograms)
+	zzsv.Register("ZZ_C03_MixedOperands", ZZ_C03_MixedOperands)
 }
 
 // zzSameObj: two results of the implementation are the same value.
@@ -382,4 +383,99 @@ func zzLongProgram(sv *zzsv.T) string {
 		src += "t(p); "
 	}
 	return src + "if (A > 3) { t(1); } else { t(2); } n = 0; while (n < 2) { n = n + 1; t(n); } w = A ? 5 + 6 : 7; foreach x in [1, 2] { t(x + w); } return u + v + n + p;"
+}
+
+// ZZ_C03_MixedOperands: one operator between a constant and a value the
+// optimizer knows nothing about (a variable of any type, a field of the host
+// object) or between two constants of any literal types, embedded in a
+// statement that also uses the result: optimized and unoptimized scripts
+// agree on failing or not, on the value and on the host calls - in particular
+// an operation the optimizer removes or rewrites ("x + 0", "x * 1", constant
+// comparisons and logic) must still fail where the unoptimized one fails.
+func ZZ_C03_MixedOperands(sv *zzsv.T) {
+	op := zzAllBinOps[sv.Choice("op", len(zzAllBinOps))]
+	provs := [][2]int{{1, 0}, {0, 1}, {0, 0}, {2, 0}, {0, 2}}
+	pp := provs[sv.Choice("provenances", sv.Param("mixed.provs", 3, 5))]
+	litTypes := []int{tInt, tFloat, tString, tBool, tArray, tRegexp}
+	fldTypes := []int{tInt, tFloat, tString, tBool}
+	pick := func(name string, prov int) int {
+		switch prov {
+		case 0:
+			return litTypes[sv.Choice(name, len(litTypes))]
+		case 2:
+			return fldTypes[sv.Choice(name, len(fldTypes))]
+		}
+		return sv.Choice(name, nTypes)
+	}
+	lt := pick("ltype", pp[0])
+	rt := pick("rtype", pp[1])
+	forms := []string{"return X;", "t(X); return 7;", "v = X; if (v) { t(1); } return v;"}
+	form := forms[sv.Choice("form", sv.Param("mixed.forms", 2, 3))]
+	// integer literals take representative values (identities and absorbing
+	// elements of the operators, both sides of the inline-operand limit)
+	var lits []int64
+	fields := map[string]interface{}{}
+	vars := map[string]zv{}
+	nl := sv.Param("mixed.intlits", 3, 6)
+	xs, x, ok1 := zzMixOperand(sv, vars, "a", nl, lt, pp[0], &lits, fields)
+	ys, y, ok2 := zzMixOperand(sv, vars, "b", nl, rt, pp[1], &lits, fields)
+	sv.Assume(ok1 && ok2)
+	if op == ".." && lt == tInt && rt == tInt {
+		sv.Assume(y.i-x.i < 4 || y.i < x.i)
+		sv.Assume(x.i > -1000000 && x.i < 1000000 && y.i > -1000000 && y.i < 1000000)
+	}
+	if op == "**" {
+		// libm's pow on symbolic arguments is an uninterpreted function
+		sv.Assume(lt != tFloat && rt != tFloat)
+		if lt == tInt && rt == tInt {
+			sv.Assume(y.i >= 0 && y.i <= 3 && x.i >= -300 && x.i <= 300)
+		}
+	}
+	src := zzSubst(form, "("+xs+" "+op+" "+ys+")")
+	sv.Note("script", src)
+	sv.Note("types", zzTypeNames[lt]+" "+op+" "+zzTypeNames[rt])
+	var obj interface{}
+	if len(fields) > 0 {
+		obj = fields
+	}
+	var tr1, tr2 []object.Object
+	mk := func(opt bool, tr *[]object.Object) (*Eval, bool) {
+		e := New(src)
+		e.AddFunction("t", func(args []object.Object) object.Object {
+			if len(args) > 0 {
+				*tr = append(*tr, args[0])
+			}
+			return &object.Void{}
+		})
+		for _, n := range []string{"a", "b"} {
+			if v, ok := vars[n]; ok {
+				e.SetVariable(n, v.obj())
+			}
+		}
+		prog, ok := zzParseWithLits(sv, src, lits)
+		if !ok {
+			return nil, false
+		}
+		var perr error
+		okp := zzNoPanic(func() { perr = zzPrepareAST(e, prog, opt) })
+		sv.Assert("C03.mixed.prepare.nopanic", okp)
+		return e, okp && perr == nil
+	}
+	e1, p1 := mk(true, &tr1)
+	e2, p2 := mk(false, &tr2)
+	sv.Assume(p2)
+	if !p1 {
+		// the optimizer may refuse a constant expression at preparation only
+		// where running it unoptimized fails as well
+		_, r2 := e2.Execute(obj)
+		sv.Assert("C03.mixed.prepare_error_only_for_failing_script", r2 != nil)
+		return
+	}
+	for run := 0; run < 2; run++ {
+		tr1, tr2 = nil, nil
+		o1, r1 := e1.Execute(obj)
+		o2, r2 := e2.Execute(obj)
+		zzDescribe(sv, "opt", o1, r1)
+		zzCompareTwo(sv, "C03.mixed", e1, e2, o1, o2, r1, r2, tr1, tr2, []string{"v"})
+	}
 }
